@@ -191,6 +191,8 @@ pub struct KeySession<'a, C: KeyColl> {
     pub keys: i32,
     pub cap: usize,
     pub obs_every: u64,
+    /// ship the snapshot only with every n-th call (large trees); 1 = always
+    pub snap_every: u64,
     opcount: u64,
     pub version: i32,
     pub last_unwound: bool,
@@ -199,7 +201,7 @@ pub struct KeySession<'a, C: KeyColl> {
 
 impl<'a, C: KeyColl> KeySession<'a, C> {
     pub fn new(tr: &'a mut Trace, keys: i32, cap: usize, obs_every: u64) -> Self {
-        let mut s = KeySession { c: None, tr, mine: vec![], now: 0, keys, cap, obs_every, opcount: 0, version: 0, last_unwound: false, last_panicked: false };
+        let mut s = KeySession { c: None, tr, mine: vec![], now: 0, keys, cap, obs_every, snap_every: 1, opcount: 0, version: 0, last_unwound: false, last_panicked: false };
         s.reset(cap);
         s
     }
@@ -248,7 +250,11 @@ impl<'a, C: KeyColl> KeySession<'a, C> {
     }
     fn state_fields(&mut self, force_obs: bool) -> String {
         if C::HAS_SNAP {
-            self.c.as_ref().unwrap().snap_json()
+            if force_obs || self.snap_every <= 1 || self.opcount % self.snap_every == 0 {
+                self.c.as_ref().unwrap().snap_json()
+            } else {
+                String::new()
+            }
         } else if force_obs || (self.obs_every > 0 && self.opcount % self.obs_every == 0) {
             self.obs_json()
         } else {
@@ -330,7 +336,8 @@ impl<'a, C: KeyColl> KeySession<'a, C> {
     pub fn apply(&mut self, op: &KOp, arm: u64) -> bool {
         self.opcount += 1;
         let desc = op.desc();
-        if C::HAS_SNAP {
+        if self.snap_every > 1 {
+        } else if C::HAS_SNAP {
             let canon = self.c.as_ref().unwrap().canon();
             self.tr.pair(&canon, &desc);
         } else {
@@ -582,12 +589,16 @@ pub struct RandCfg {
     pub steps: u64,
     pub seg_len: u64,
     pub inject: bool,
+    pub snap_every: u64,
+    /// false: never clear (lets the tree grow large)
+    pub clears: bool,
 }
 
 pub fn run_random<C: KeyColl>(tr: &mut Trace, cfg: &RandCfg) {
     let mut rng = Rng::new(cfg.seed);
     let caps = [0usize, 1, 8, 9, 33];
     let mut s: KeySession<C> = KeySession::new(tr, cfg.keys, caps[(rng.next() % 5) as usize], 7);
+    s.snap_every = cfg.snap_every;
     let mut in_seg = 0u64;
     let mut done = 0u64;
     let mut clock = 0i32;
@@ -622,7 +633,8 @@ pub fn run_random<C: KeyColl>(tr: &mut Trace, cfg: &RandCfg) {
                 if s.live_dup(kk, t) {
                     s.apply(&KOp::Get { t, k: kk }, arm)
                 } else {
-                    let e = t + rng.range(0, cfg.tspan as i64) as i32;
+                    // now and then an entry that never expires (E::max_expiration())
+                    let e = if rng.chance(1, 12) { i32::MAX } else { t + rng.range(0, cfg.tspan as i64) as i32 };
                     let v = s.next_value(kk, e);
                     s.apply(&KOp::Ins { k: kk, e, v, t }, arm)
                 }
@@ -633,7 +645,7 @@ pub fn run_random<C: KeyColl>(tr: &mut Trace, cfg: &RandCfg) {
             14..=16 => s.apply(&KOp::Get { t, k }, arm),
             17 => s.apply(&KOp::Empty, 0),
             18 => {
-                if rng.chance(1, 6) {
+                if cfg.clears && rng.chance(1, 6) {
                     clock = 0; // the clock may restart after a clear
                     s.apply(&KOp::Clear, 0)
                 } else {
@@ -716,6 +728,71 @@ pub fn run_sizes<C: KeyColl>(tr: &mut Trace, max: u64, seed: u64) {
         n *= 10;
     }
     tr.line(&format!("\"ev\":\"reset\",\"coll\":\"{}\",\"cap\":0", C::NAME));
+    // few entries in a large arena: a big capacity hint; many entries cleared away; many expired away
+    for (label, big) in [("hint", 3000usize), ("cleared", 2500), ("expired", 2500), ("hint", 40000), ("cleared", 40000)] {
+        let few = 10usize;
+        let mut c = if label == "hint" { C::make(big) } else { C::make(0) };
+        let mut stored = few;
+        match label {
+            "cleared" => {
+                for k in 1..=big as i32 {
+                    c.insert(inst::probe(k, 10), k, 0);
+                }
+                c.clear();
+                for k in 1..=few as i32 {
+                    c.insert(inst::probe(k, 10), k, 0);
+                }
+            }
+            "expired" => {
+                // ascending keys expiring at 1, then look-ups at time 2 remove what they meet
+                for k in 1..=big as i32 {
+                    c.insert(inst::probe(k, if k <= few as i32 { 10 } else { 1 }), k, 0);
+                }
+                for k in (1..=big as i32).step_by(3) {
+                    c.get_value(2, inst::probe(k, inst::NOEXP));
+                }
+                stored = 0; // unknown to the harness: reported by the snapshot below where there is one
+            }
+            _ => {
+                for k in 1..=few as i32 {
+                    c.insert(inst::probe(k, 10), k, 0);
+                }
+            }
+        }
+        let snap = c.snap_json();
+        if label == "expired" {
+            if snap.is_empty() {
+                continue; // the list ships no snapshot: its stored count cannot be logged
+            }
+            tr.line(&format!("\"ev\":\"load\",\"coll\":\"{}\",\"cap\":0,\"now\":2,\"path\":\"\",{}", C::NAME, snap));
+            let desc = "\"op\":\"export\",\"t\":2".to_string();
+            tr.pre(&format!("{},\"out\":\"aborted\"", desc));
+            let o = observe(0, move || {
+                let v = c.export(2);
+                (v.capacity(), v)
+            });
+            let mut extra = String::new();
+            if let Outcome::Ok((capacity, v)) = &o.out {
+                let vv: Vec<i64> = v.iter().map(|x| *x as i64).collect();
+                let _ = write!(extra, ",\"res\":{},\"vcap\":{}", list_json(&vv), capacity);
+            }
+            tr.line(&format!("\"ev\":\"op\",{}{},{},\"ncb\":0,\"cmp\":[]", desc, extra, out_fields(&o)));
+            tr.line(&format!("\"ev\":\"reset\",\"coll\":\"{}\",\"cap\":0", C::NAME));
+            continue;
+        }
+        let desc = format!("\"op\":\"exportn\",\"n\":{},\"order\":\"{}-{}\"", stored, label, big);
+        tr.pre(&format!("{},\"out\":\"aborted\"", desc));
+        let o = observe(0, move || {
+            let v = c.export(0);
+            let sorted = v.windows(2).all(|w| w[0] < w[1]);
+            (v.capacity(), v.len(), sorted)
+        });
+        let mut extra = String::new();
+        if let Outcome::Ok((cap, len, sorted)) = &o.out {
+            let _ = write!(extra, ",\"vcap\":{},\"len\":{},\"sorted\":{}", cap, len, *sorted as u8);
+        }
+        tr.line(&format!("\"ev\":\"op\",{}{},{}", desc, extra, out_fields(&o)));
+    }
     for (n, order) in sizes {
         let mut keys: Vec<i32> = (1..=n as i32).collect();
         match order {
